@@ -221,7 +221,7 @@ fn check(p: &dyn Property, a: &Args) -> i32 {
             println!("  expected : {}", runner::truncate(&mv.expected, 600));
             println!("  observed : {}", runner::truncate(&mv.observed, 600));
             println!("  program  : {}", runner::truncate(&text, 600));
-            if !reproduced && mv.world == "sim" {
+            if !reproduced {
                 println!("HARNESS-ERROR: replay of {} did not reproduce the violation", path);
                 write_evidence(p, a, &res.stats, n, t0.elapsed().as_secs_f64(), 1);
                 return 2;
@@ -312,15 +312,21 @@ fn replay(p: &dyn Property, file: &str) -> i32 {
             return 2;
         }
     };
-    let out = p.run(&sc);
-    println!("replay {} event_log_hash={:016x}", file, out.log_hash);
+    let real = j.get("world").and_then(|x| x.as_str()) == Some("real");
+    let mut out = runner::RunOut::default();
+    if real {
+        out.violation = p.replay_real(&sc);
+    } else {
+        out = p.run(&sc);
+    }
+    println!("replay {} world={} event_log_hash={:016x}", file, if real { "real" } else { "sim" }, out.log_hash);
     match out.violation {
         Some(v) => {
             println!("  clause={}", v.clause);
             println!("  expected : {}", runner::truncate(&v.expected, 1500));
             println!("  observed : {}", runner::truncate(&v.observed, 1500));
             let want = j.get("event_log_hash").and_then(|x| x.as_str()).unwrap_or("");
-            if !want.is_empty() && want != format!("{:016x}", out.log_hash) {
+            if !real && !want.is_empty() && want != format!("{:016x}", out.log_hash) {
                 println!("  note: event log hash differs from the recorded one ({})", want);
             }
             println!("VIOLATION property={} replay={}", p.id(), file);
